@@ -22,7 +22,8 @@ RULE = ("seeded result values from the documented domain (None, bool, int, float
         '; rounds 7-9: equal-comparing values of different types inside partitions, arrays of dimension 0 / 2 / 3, Fortran-ordered, strided and with an empty axis'
         '; rounds 10-11: pandas timestamps, exception classes that share their name with a class of another module'
         '; round 14: strings with CR / CRLF / NEL / LS / FF / BOM'
-        '; round 16: every third value is followed by forget_cluster and two more calls')
+        '; round 16: every third value is followed by forget_cluster and two more calls'
+        '; round 17: a function that finishes, in place, the list / dictionary a nested call returned and hands on the same object')
 ASSUMPTIONS = ["numpy scalars, timedelta, tuples and non-string dict keys are outside the stated result domain",
                "an exception class counts as rebuildable iff calling it with one string argument succeeds",
                "values are never mutated by the harness (the memory backend hands back the identical object)"]
